@@ -489,7 +489,17 @@ type endStreamJSON struct {
 // are application/json).
 func DecodeResponse(p Proto, streaming bool, reqCT string, status int, hdr http.Header, body []byte, trailer http.Header, d Decomp) (*Response, error) {
 	r := &Response{}
-	ct, _ := single(hdr, "Content-Type")
+	ct, nct := single(hdr, "Content-Type")
+	if nct > 1 {
+		return nil, fmt.Errorf("response has %d Content-Type fields: %q", nct, hdr["Content-Type"])
+	}
+	if cl, n := single(hdr, "Content-Length"); n > 0 {
+		// an HTTP message that declares a length has exactly that many body
+		// bytes (net/http refuses to send anything else)
+		if v, err := strconv.Atoi(strings.TrimSpace(cl)); n > 1 || err != nil || v != len(body) {
+			return nil, fmt.Errorf("response declares Content-Length %q and has %d body bytes", hdr["Content-Length"], len(body))
+		}
+	}
 	switch p {
 	case Connect:
 		if !streaming {
